@@ -102,6 +102,7 @@ def run(chk):
         "sweep: solve_forces / distributions of (aircraft, state, controls) vs the mirrored triple in all frames"])
     rng = chk.rng
     n = chk.q(100, 400)
+    fin_axis_done = False
     for it in range(n):
         kind = rng.choice(["general", "general", "symmetric", "fin"])
         sd = gen.gen_scene(rng, chk.hist, rho="const", wind=False)
@@ -145,6 +146,15 @@ def run(chk):
                                      "connect_to": {"ID": 1, "location": "tip", "y_offset": 0.3}, "grid": {"N": 3, "reid_corrections": True}}}
             ac["controls"] = {}
             chk.count("forced=tip-connection-with-gap")
+        if it >= 5 and kind == "general" and not fin_axis_done:
+            fin_axis_done = True
+            # a ventral fin given by its tip point, running from below the keel up to the body x-axis: its tip is at distance zero from the axis
+            af_ = next(iter(ac["airfoils"]))
+            ac["wings"] = {"wing": {"ID": 1, "side": "both", "is_main": True, "semispan": 3.0, "chord": 1.0, "airfoil": af_, "grid": {"N": 4}},
+                           "ventral": {"ID": 2, "side": "left", "is_main": False, "quarter_chord_locs": [[-0.1, 0.0, -0.5]], "chord": 0.6, "airfoil": af_,
+                                       "connect_to": {"ID": 0, "dx": -2.5, "dz": 0.5}, "grid": {"N": 3}}}
+            ac["controls"] = {}
+            chk.count("forced=fin-tip-on-axis")
         if it == 1:
             # a right-hand chain whose names contain "_left", whatever was drawn
             af_ = next(iter(ac["airfoils"]))
@@ -169,12 +179,24 @@ def run(chk):
             st = gen.gen_state(rng, chk.hist, ang=6.0, pose=rng.random() < 0.5, rate_frames=("body",))
             cs = gen.gen_controls(rng, ac)
         ac2, st2, cs2 = mirror_aircraft(ac), mirror_state(st), mirror_controls(ac, cs)
-        try:
-            sa = gen.build_scene(MX, sd, [("a", ac, st, cs)])
-            sb = gen.build_scene(MX, sd, [("a", ac2, st2, cs2)])
-        except Exception as e:
-            chk.count("error=" + type(e).__name__)
+        built, errs_ = [], []
+        for d_ in ((ac, st, cs), (ac2, st2, cs2)):
+            try:
+                built.append(gen.build_scene(MX, sd, [("a",) + d_]))
+                errs_.append(None)
+            except Exception as e:
+                built.append(None)
+                errs_.append("%s: %s" % (type(e).__name__, str(e)[:150]))
+        if errs_[0] is not None and errs_[1] is not None:
+            chk.count("error=" + errs_[0].split(":")[0])
             continue
+        if errs_[0] is not None or errs_[1] is not None:
+            # a description that can be built must have a mirror image that can be built
+            chk.case(dict(kind=kind, it=it, one_sided_build=True), nontrivial=True)
+            chk.violation("build:one-side-only", dict(kind="mirror", what="one of the two mirror-image descriptions cannot be built", scene=sd, aircraft=ac,
+                                                      mirrored_aircraft=ac2, errors=errs_))
+            continue
+        sa, sb = built
         g = check_geometry_mirror(sa._airplanes["a"], sb._airplanes["a"])
         chk.case(dict(kind=kind, sides=[w.get("side") for w in ac["wings"].values()], reid=[w["grid"].get("reid_corrections") for w in ac["wings"].values()], it=it),
                  nontrivial=any(w.get("side") != "both" for w in ac["wings"].values()) or kind == "symmetric")
